@@ -124,11 +124,36 @@ fn coincidence_cells(rng: &mut Rng, cfg: &GenCfg) -> Vec<C> {
   out.sort_by(|x, y| (x.b, &x.p).cmp(&(y.b, &y.p)));
   out
 }
+/// A full cell exploded into full descendants of mixed depths (cascades of sibling merges over several levels when packed: the
+/// merge of one level completes the four siblings of the next), sometimes with one partial leaf that must stop the cascade
+fn exploded(rng: &mut Rng, left: u8, p: f64, spoil: &mut bool) -> T {
+  if left == 0 || rng.f64() >= p { return if *spoil && rng.below(40) == 0 { *spoil = false; T::P } else { T::F }; }
+  // the deepest explosion is more often in the last sibling (the cascade then closes a group whose first three cells are old)
+  let deep = if rng.bool() { 3 } else { rng.below(4) as usize };
+  let mut kids: Vec<T> = Vec::new();
+  for i in 0..4 { kids.push(exploded(rng, left - 1, if i == deep { p.max(0.85) } else { p * 0.45 }, spoil)); }
+  let mut it = kids.into_iter();
+  T::N(Box::new([it.next().unwrap(), it.next().unwrap(), it.next().unwrap(), it.next().unwrap()]))
+}
 pub fn gen_cells(rng: &mut Rng, cfg: &GenCfg) -> Vec<C> {
   let mut out = Vec::new();
-  let style = rng.below(12);
+  let style = rng.below(14);
   match style {
     10 | 11 => { return coincidence_cells(rng, cfg); }
+    12 | 13 if cfg.dmax >= 2 => {
+      // unpacked on purpose (whatever cfg.packed says: the callers that need canonical operands pack them themselves)
+      let mut spoil = cfg.flags && rng.bool();
+      let nb = 1 + rng.below(3);
+      let mut bs: Vec<u8> = (0..nb).map(|_| rng.below(12) as u8).collect();
+      if rng.below(4) == 0 { bs = vec![0, 1, 2, 3]; } // four sibling base cells: the cascade must stop at depth 0
+      bs.sort(); bs.dedup();
+      for b in bs {
+        let t = exploded(rng, cfg.dmax.min(7), 0.9, &mut spoil);
+        let t = if cfg.packed { norm(t, true) } else { t };
+        list(&t, b, &mut Vec::new(), &mut out);
+      }
+      return out;
+    }
     0 => {} // empty
     1 => { for b in 0..12 { out.push(C { b, p: vec![], f: true }); } } // whole sky
     2 => { // a single deepest cell: first, last or random
@@ -297,7 +322,47 @@ pub fn ev_query(regs: &mut Regs, out: &mut Out, o: usize, what: &str, res: Optio
 }
 
 // ------------------------------------------------------------------------------------------ scenarios
+/// Two operands built together: A holds a coarse cell (d, n); B holds cells inside it followed by a SHALLOWER cell with the same
+/// number n (or n + 1), or a deeper cell numbered n just before / after: helpers that compare cell numbers of different depths
+/// (is_in, raw-value order shortcuts) go wrong on exactly these pairs. Both lists are well formed.
+fn coincidence_pair(rng: &mut Rng, dmax: u8, flags: bool) -> (Vec<C>, Vec<C>) {
+  let mk = |d: u8, n: u64, f: bool| { let (b, p) = path_of_hash(d, n); C { b: b as u8, p, f } };
+  let flag = |rng: &mut Rng| !flags || rng.bool();
+  let d = 1 + rng.below(dmax as u64) as u8;                 // depth of the coarse cell, 1 ..= dmax
+  let dsh = rng.below(d as u64) as u8;                       // a shallower depth
+  let nmax_sh = 12u64 << (2 * dsh as u32);
+  let n = 1 + rng.below((nmax_sh - 1).min(40));              // valid at depth dsh, hence at depth d; small numbers mostly
+  let a = vec![mk(d, n, flag(rng))];
+  let mut b: Vec<C> = Vec::new();
+  // cells of B inside (d, n)
+  if d < dmax {
+    let dd = 1 + rng.below((dmax - d).min(3) as u64) as u8;
+    let first = n << (2 * dd as u32);
+    let cnt = 1u64 << (2 * dd as u32);
+    let mut k = 0;
+    while k < cnt { if rng.below(3) != 0 { b.push(mk(d + dd, first + k, flag(rng))); } k += 1 + rng.below(3); }
+  } else { b.push(mk(d, n, flag(rng))); }
+  // then the shallower cell with the same number (after them in z-order: n * 4^(d - dsh) > n), or with n + 1
+  let m = if rng.below(3) == 0 { n + 1 } else { n };
+  if m < nmax_sh { b.push(mk(dsh, m, flag(rng))); }
+  // keep B well formed (the shallow cell must not contain the deep ones)
+  let mut out_b: Vec<C> = Vec::new();
+  for c in b { let ov = out_b.iter().any(|o| o.b == c.b && { let k = o.p.len().min(c.p.len()); o.p[..k] == c.p[..k] }); if !ov { out_b.push(c); } }
+  out_b.sort_by(|x, y| (x.b, &x.p).cmp(&(y.b, &y.p)));
+  if rng.bool() { (a, out_b) } else { (out_b, a) }
+}
 fn fill_regs(rng: &mut Rng, regs: &mut Regs, out: &mut Out, n: usize, flags: bool, packed_prob: f64) {
+  if n >= 2 && rng.below(6) == 0 {
+    let dmax = gen_dmax(rng).max(1);
+    let (a, b) = coincidence_pair(rng, dmax, flags);
+    let d2 = if rng.below(3) == 0 { (dmax + 1 + rng.below(3) as u8).min(29) } else { dmax };
+    ev_new(regs, out, 0, dmax, &a);
+    ev_new(regs, out, 1, d2, &b);
+    for k in 2..n { let cfg = GenCfg { dmax: gen_dmax(rng), flags, packed: rng.f64() < packed_prob }; let cs = gen_cells(rng, &cfg); ev_new(regs, out, k, cfg.dmax, &cs); }
+    // make sure the pair meets, both ways round
+    for op in ["or", "xor", "and"].iter() { ev_op(regs, out, op, 0, 1, 4); ev_op(regs, out, op, 1, 0, 5); }
+    return;
+  }
   for k in 0..n {
     let cfg = GenCfg { dmax: gen_dmax(rng), flags, packed: rng.f64() < packed_prob };
     let cs = gen_cells(rng, &cfg);
